@@ -13,10 +13,10 @@
 (*                    the exact tag, or none; no state change              *)
 (*   Mark(tag, pos)   mark_consumed                                        *)
 (*   Find(base, V)    find_..._constrained: consumes and returns the next  *)
-(*                    unconsumed occurrence of some admissible tag (exact  *)
-(*                    tag, or base+letter with letter in V when V is       *)
-(*                    given); which admissible tag is taken first is left  *)
-(*                    open by the contract, the order WITHIN a tag is not  *)
+(*                    unconsumed occurrence of the exact tag, else the     *)
+(*                    earliest unconsumed occurrence of base+letter with   *)
+(*                    letter in V (any letter when V is not given):        *)
+(*                    occurrences of a base tag come out in input order    *)
 (*                                                                         *)
 (* Properties (C16): ExactlyOnce, InOrderPerTag, NothingInvented,          *)
 (* NoneOnlyWhenExhausted.                                                  *)
@@ -40,10 +40,15 @@ NextOf(b, l) == IF Unconsumed(b, l) = {} THEN {} ELSE {MinPos(Unconsumed(b, l))}
 
 Letters == {o.l : o \in Occs}
 
-(* what Find(base, V) may return: V = {} stands for "no constraint" *)
-Admissible(base, V) ==
-  NextOf(base, "") \cup
+(* what Find(base, V) returns: the next unconsumed occurrence of the exact tag if there is one,
+   otherwise the earliest (in input order) unconsumed occurrence among the admissible option
+   letters; V = {} stands for "no constraint" *)
+VariantCandidates(base, V) ==
   UNION {NextOf(base, l) : l \in {x \in Letters : x # "" /\ (V = {} \/ x \in V)}}
+Admissible(base, V) ==
+  IF NextOf(base, "") # {} THEN NextOf(base, "")
+  ELSE IF VariantCandidates(base, V) = {} THEN {}
+  ELSE {MinPos(VariantCandidates(base, V))}
 
 TInit(m) == occ = m /\ consumed = {} /\ given = <<>>
 
@@ -66,5 +71,6 @@ Find(base, V, res) ==
 ExactlyOnce   == \A i, j \in 1..Len(given) : i # j => given[i] # given[j]
 InOrderPerTag == \A i, j \in 1..Len(given) :
                     (i < j /\ given[i].b = given[j].b /\ given[i].l = given[j].l) => given[i].pos < given[j].pos
+(* among option letters of one base tag, Find alone hands out in input order (see Admissible) *)
 NothingInvented == \A i \in 1..Len(given) : given[i] \in Occs
 =============================================================================
